@@ -255,8 +255,41 @@ def other_cases(draw):
     return case
 
 
+_WS = {}
+
+
+def _ws(tier):
+    if tier not in _WS:
+        specs = [(3, True), (3, False), (4, False)] if tier == "quick" else [(3, True), (3, False), (4, False), (4, True)]
+        vals = (0.25, 0.5) if tier == "quick" else (0.5,)
+        _WS[tier] = gen.WeightedSpace(specs, vals) if tier == "quick" else None
+        if tier == "thorough":
+            _WS[tier] = gen.WeightedSpace([(3, True), (3, False), (4, False)], (0.25, 0.5, 1.0))
+    return _WS[tier]
+
+
+_PS = [a / 16.0 for a in range(17)] + [1 / 3, 2 / 3, 1 / 6, 5 / 6, 0.1, 0.3, 0.7, 0.9]
+
+
+def _exh_total(tier):
+    return _ws(tier).total * len(_PS)
+
+
+def _exh_cases(tier, lo, hi):
+    from fractions import Fraction
+    sp = _ws(tier)
+    for k in range(lo, hi):
+        g, pi = divmod(k, len(_PS))
+        n, d, W = sp.at(g)
+        p = _PS[pi]
+        yield {"op": "proportional", "W": W, "p": p, "dyadic": pi < 17}
+
+
 def units(tier):
     return [
+        Unit("threshold_proportional-exhaustive", check, count=_exh_total, cases=_exh_cases, shards=(16, 32),
+             space="every 3-node directed / 3- and 4-node symmetric matrix with cell values in {0,.25,.5} (thorough: {0,.25,.5,1}) x p in "
+                   "{a/16, a=0..16} + {1/3,2/3,1/6,5/6,.1,.3,.7,.9}"),
         Unit("threshold_proportional", check, strategy=prop_cases, examples=(3000, 40000), shards=(8, 16)),
         Unit("other-utilities", check, strategy=other_cases, examples=(2000, 30000), shards=(8, 16)),
     ]
